@@ -72,6 +72,11 @@ chk("C09",
     TRUST + "Not decided: Σ instalments = proceeds as a number (VEST-REM is its structural reason); schedule validity arithmetic.",
     "rounding-direction analysis over provenance terms + loop-carried remainder recognition + pairing automaton over abstract paths", "DESIGN.md section 4 C09")
 
+chk("C04",
+    "Structural necessary conditions: (RD-DIR) every Dec→Int conversion of the module (6 today) is classified by its operator skeleton — division by a price (quantity given) must round FLOOR, multiplication by a price (amount charged/reserved) CEIL or a difference of ceilings, weight shares FLOOR — with an operator table over the resolved cosmossdk.io/math callees; (RD-SIB) the modification's charged difference is ceil(msg amount×msg price) − ceil(stored amount×stored price) with exactly the operators of the bid's to-paying conversion, and the reservation rebuilt at settlement uses that same conversion, so differences telescope; (UNI-PRICE) in the matching routine every payment multiplier and quantity divisor is the single match-price parameter, which the result publishes; (INCL-GUARD) under 'level price < match price' no accumulation is reachable (and under '>' it is); (REFUND-PROV) each bidder's refund starts as the whole rebuilt reservation (over the auction's complete bid list, per bidder) and for matched bidders becomes reservation − payment of the same bidder.",
+    TRUST + "Not decided: the numeric bounds (< 1 unit per matched bid, ≥ price×quantity) for all 18-decimal prices; they follow from the directions only qualitatively.",
+    "rounding-direction abstract domain over provenance terms + operator-skeleton sibling comparison + ORD-EVAL for the inclusion guard + map-update provenance", "DESIGN.md section 4 C04")
+
 PENDING = {}  # property -> reason (kept current as checks are added)
 ALL = ["C%02d" % i for i in range(1, 21)]
 for p in ALL:
